@@ -1832,6 +1832,13 @@ class Dosini(object):
         return ret
 
     @classmethod
+    def _bool_to_str(cls, value):
+        # VV: booleans are stored in lowercase, references to variables (e.g. %(myVar)s) must be kept as they are
+        if isinstance(value, bool):
+            return str(value).lower()
+        return str(value)
+
+    @classmethod
     def _comp_workflow_attributes_to_dict(cls, comp):
         # type: (DictFlowIRComponent) -> Dict[str, str]
         key = 'workflowAttributes'
@@ -1850,9 +1857,9 @@ class Dosini(object):
                 'repeatRetries': lambda key, value: {key: str(value)},
                 'maxRestarts': lambda key, value: ({'max-restarts': str(value)} if value is not None else {}),
                 'replicate': lambda key, value: {key: str(value)},
-                'aggregate': lambda key, value: {key: str(value).lower()},
+                'aggregate': lambda key, value: {key: cls._bool_to_str(value)},
                 'repeatInterval': lambda key, value: {'repeat-interval': str(value)},
-                'isMigratable': lambda key, value: {key: str(value).lower()},
+                'isMigratable': lambda key, value: {key: cls._bool_to_str(value)},
             }
         )
 
@@ -1863,7 +1870,7 @@ class Dosini(object):
                 required={
                 },
                 optional={
-                    'disable': lambda key, value: {'optimizerDisable': str(value).lower()},
+                    'disable': lambda key, value: {'optimizerDisable': cls._bool_to_str(value)},
                     'exploitChance': lambda key, value: {'optimizerExploitChance': str(value)},
                     'exploitTarget': lambda key, value: {'optimizerExploitTarget': str(value)},
                     'exploitTargetLow': lambda key, value: {'optimizerExploitTargetLow': str(value)},
@@ -1877,8 +1884,8 @@ class Dosini(object):
                 comp['workflowAttributes'].get('memoization', {}).get('disable', {}),
                 required={},
                 optional={
-                    'strong': lambda key, value: {'memoization-disable-strong': str(value).lower()},
-                    'fuzzy': lambda key, value: {'memoization-disable-fuzzy': str(value).lower()},}))
+                    'strong': lambda key, value: {'memoization-disable-strong': cls._bool_to_str(value)},
+                    'fuzzy': lambda key, value: {'memoization-disable-fuzzy': cls._bool_to_str(value)},}))
         flat.update(
             cls._translate_dict_to_dict(
                 comp['workflowAttributes'].get('memoization', {}),
@@ -2064,7 +2071,7 @@ class Dosini(object):
 
         def bool_to_str(key, value):
             # type: (str, bool) -> Dict[str, str]
-            return {key: str(value).lower()}
+            return {key: cls._bool_to_str(value)}
 
         key = 'command'
 
